@@ -176,6 +176,13 @@ def pin(body, template, what):
     return m.groups()
 
 ERR = r'return Err\(BlockSourceError::persistent\("([^"]*)"\)\);'
+ERRK = r'return Err\(BlockSourceError::(\w+)\("([^"]*)"\)\);'
+def kind_of(k, what):
+    """BlockSourceError constructor name -> Lean Bool `kind() == Transient`"""
+    k = k.strip()
+    if k == 'persistent': return 'false'
+    if k == 'transient': return 'true'
+    raise Bad('%s: `BlockSourceError::%s` is neither persistent nor transient' % (what, k))
 
 def gen(srcs):
     poll, lib, init = (srcs['lightning-block-sync/src/' + f] for f in ('poll.rs', 'lib.rs', 'init.rs'))
@@ -224,10 +231,12 @@ def gen(srcs):
 
     # ---- poll.rs look_up_previous_header ----------------------------------------------------------
     b = body_of(poll, 'look_up_previous_header', after='for ChainPoller<B, T>')
-    m = full(r'\{ async move \{ if (.+?) \{ ' + ERR + r' \} let previous_hash = &header\.header\.prev_blockhash; let height = header\.height - 1; '
+    m = full(r'\{ async move \{ if (.+?) \{ ' + ERRK + r' \} let previous_hash = &header\.header\.prev_blockhash; let height = header\.height - 1; '
              r'let previous_header = self \.block_source \.get_header\(previous_hash, Some\(height\)\) \.await\? \.validate\(\*previous_hash\)\?; '
              r'header\.check_builds_on\(&previous_header, self\.network\)\?; Ok\(previous_header\) \} \}', b, 'ChainPoller::look_up_previous_header')
-    d('poll.rs ChainPoller::look_up_previous_header: `if %s` ⇒ "%s"' % (m.group(1), m.group(2)), 'def isGenesisHeader (header : Hdr) : Bool :=\n  ' + tr(m.group(1)))
+    d('poll.rs ChainPoller::look_up_previous_header: `if %s` ⇒ "%s"' % (m.group(1), m.group(3)), 'def isGenesisHeader (header : Hdr) : Bool :=\n  ' + tr(m.group(1)))
+    d('poll.rs ChainPoller::look_up_previous_header: the error of the genesis test is `BlockSourceError::%s("%s")` ; the value below is `kind() == BlockSourceErrorKind::Transient`' % (m.group(2), m.group(3)),
+      'def genesisErrTransient : Bool := ' + kind_of(m.group(2), 'look_up_previous_header: genesis error'))
 
     # ---- poll.rs Validate impls -------------------------------------------------------------------
     vh = body_of(poll, 'validate', after='impl Validate for BlockHeaderData')
@@ -299,7 +308,7 @@ def gen(srcs):
     d('lib.rs find_difference_from_best_block: candidate `height_diff` of `previous_blocks[idx]`: `%s`' % c, 'def locatorHeightDiff (idx : Nat) : Nat :=\n  ' + tr(c))
     if 'let cur_tip = core::iter::once((0, &prev_best_block.block_hash));' not in b or 'for (height_diff, block_hash) in cur_tip.chain(prev_tips)' not in b:
         raise Bad('find_difference_from_best_block: candidate order changed')
-    c = one(r'let height = (prev_best_block\.height\.checked_sub\(height_diff\))\.ok_or\( BlockSourceError::persistent\( "BlockLocator had more previous_blocks than its height", \), \)\?;', b, 'find_difference_from_best_block: checked_sub')
+    c = one(r'let height = (prev_best_block\.height\.checked_sub\(height_diff\))\.ok_or\( BlockSourceError::\w+\( "BlockLocator had more previous_blocks than its height", \), \)\?;', b, 'find_difference_from_best_block: checked_sub')
     d('lib.rs find_difference_from_best_block: `%s` (None ⇒ "BlockLocator had more previous_blocks than its height")' % c,
       'def locatorHeight (prev_best_block_height height_diff : Nat) : Option Nat :=\n  ' + tr(c, [(r'prev_best_block\.height', 'prev_best_block_height')]))
     if not re.search(r'if let Some\(header\) = self\.header_cache\.look_up\(block_hash\) \{ found_header = Some\(\*header\); break; \} let height = ', b) or \
@@ -356,14 +365,18 @@ def gen(srcs):
         'lib.rs disconnect_blocks')
     d('lib.rs ChainNotifier::disconnect_blocks: the listener is told `blocks_disconnected(BlockLocator::new(%s, %s))` (whole body pinned: cache first, then the listener)' % (h1, h2),
       'def disconnectLocator (fork_point : Hdr) : Nat × Nat :=\n  (%s, %s)' % (tr(h1), tr(h2)))
-    pin(body_of(lib, 'find_difference_from_best_block'),
+    _ld, _lh, klh, knl = pin(body_of(lib, 'find_difference_from_best_block'),
         '{ let cur_tip = core::iter::once((0, &prev_best_block.block_hash)); let prev_tips = prev_best_block.previous_blocks.iter().enumerate().filter_map(|(idx, hash_opt)| { '
         'if let Some(block_hash) = hash_opt { Some((«», block_hash)) } else { None } }); let mut found_header = None; '
         'for (height_diff, block_hash) in cur_tip.chain(prev_tips) { if let Some(header) = self.header_cache.look_up(block_hash) { found_header = Some(*header); break; } '
-        'let height = «».ok_or( BlockSourceError::persistent( "BlockLocator had more previous_blocks than its height", ), )?; '
+        'let height = «».ok_or( BlockSourceError::«»( "BlockLocator had more previous_blocks than its height", ), )?; '
         'if let Ok(header) = chain_poller.get_header(block_hash, Some(height)).await { found_header = Some(header); self.header_cache.insert_during_diff(*block_hash, header); break; } } '
-        'let found_header = found_header.ok_or_else(|| { BlockSourceError::persistent("could not resolve any block from BlockLocator") })?; '
+        'let found_header = found_header.ok_or_else(|| { BlockSourceError::«»("could not resolve any block from BlockLocator") })?; '
         'self.find_difference_from_header(current_header, &found_header, chain_poller).await }', 'lib.rs find_difference_from_best_block')
+    d('lib.rs find_difference_from_best_block: the checked_sub failure is `BlockSourceError::%s("BlockLocator had more previous_blocks than its height")` ; the value below is `kind() == BlockSourceErrorKind::Transient`' % klh.strip(),
+      'def locatorHeightErrTransient : Bool := ' + kind_of(klh, 'find_difference_from_best_block: checked_sub error'))
+    d('lib.rs find_difference_from_best_block: no candidate resolved is `BlockSourceError::%s("could not resolve any block from BlockLocator")` ; the value below is `kind() == BlockSourceErrorKind::Transient`' % knl.strip(),
+      'def noLocatorErrTransient : Bool := ' + kind_of(knl, 'find_difference_from_best_block: unresolved locator error'))
     pin(body_of(lib, 'look_up_previous_header', after="impl<'a, L: chain::Listen + ?Sized> ChainNotifier<'a, L>"),
         '{ match self.header_cache.look_up(&header.header.prev_blockhash) { Some(prev_header) => Ok(*prev_header), None => chain_poller.look_up_previous_header(header).await, } }',
         'lib.rs ChainNotifier::look_up_previous_header')
